@@ -95,6 +95,38 @@ def check(P: Project, R: Report) -> None:
     R.ob("R2", "no-fall-off", not out.normal, fi.where, "a path falls off the end (returns None)")
     member, non_member = f"{p} in NON_RETRYABLE_ERRORS", f"{p} not in NON_RETRYABLE_ERRORS"
     R.need(out.ret, "is_retryable_error has no return")
+    # The classifier written as a lookup (a disposition table, a default for unlisted codes) instead of the membership
+    # test: decided by reading its value off the body for every named code and for codes in no table.  That is exact as
+    # long as the code is only used as a key or compared for (in)equality — an ordering test or arithmetic on the code
+    # (a range fast path) makes unlisted codes differ from one another, and the path rule below speaks instead.
+    from ..consteval import NotConstant, fold_function
+
+    uses = [n for n in ast.walk(fi.node) if isinstance(n, ast.Name) and n.id == p and isinstance(n.ctx, ast.Load)]
+    parents = {id(c): n for n in ast.walk(fi.node) for c in ast.iter_child_nodes(n)}
+    key_only = True
+    for u in uses:
+        par = parents.get(id(u))
+        if isinstance(par, ast.Compare) and all(isinstance(o, (ast.In, ast.NotIn, ast.Eq, ast.NotEq)) for o in par.ops):
+            continue
+        if isinstance(par, ast.Call) and isinstance(par.func, ast.Attribute) and par.func.attr == "get" and par.args and par.args[0] is u:
+            continue
+        if isinstance(par, ast.Subscript) and par.slice is u:
+            continue
+        if isinstance(par, (ast.JoinedStr, ast.FormattedValue)) or (isinstance(par, ast.Call) and ast.unparse(par.func).split(".")[0] in ("logging", "logger")):
+            continue
+        key_only = False
+    syntactic = all(node.value is not None and (norm_lit(ast.parse(subst_text(node.value, st), mode="eval").body, True) in (non_member, "True", "False")) for st, node in out.ret)
+    if key_only and not syntactic:
+        universe = sorted(set(named.values()) | set(non_retry) | set(retry)) + [0, 1, -1, -32099, 12345, -40000]
+        try:
+            wrong = [(c, fold_function(P, fi, [c])) for c in universe]
+        except NotConstant as e:
+            raise AnalysisError(f"{fi.module.rel}: is_retryable_error is neither the membership test nor a lookup these rules can read off ({e})")
+        bad = [(c, v) for c, v in wrong if v is not (c not in non_retry)]
+        R.ob("R2", "classifier as a table lookup: value read off for every named code and for unlisted codes", not bad, fi.where,
+             f"is_retryable_error({bad[0][0] if bad else ''}) reads off as {bad[0][1] if bad else ''}, the sets say {bad[0][0] not in non_retry if bad else ''}",
+             sample=f"R2 lookup form decided over {len(universe)} codes")
+        out = type(out)()  # the per-return membership rule does not apply to this form
     for st, node in out.ret:
         val = node.value
         ok = False
